@@ -235,30 +235,44 @@ structure Fmt where
 def Fmt.mask (f : Fmt) (sel : Selection) : Nat :=
   if f.lsb then maskLSB f.names sel else maskMSB f.names sel
 
-/-- `DataSet.select(**kwargs)` -/
-def step (f : Fmt) (s : St) (c : Call) : St :=
+/-- the table a data set was opened with passes the setters' assertion and has distinct names -/
+def Fmt.Valid (f : Fmt) : Prop := f.names.Nodup ∧ f.names.length = 8
+
+/-- loop branch `elif k == 'weights': self._weights_keep = v` -/
+def setWeights (s : St) : St :=
+  match s.selWeights with
+  | some v => { s with weightsKeep := v }
+  | none => s
+
+/-- loop branch `elif k == 'flags': self._flags_keep = v` (property setter) -/
+def setFlags (f : Fmt) (s : St) : St :=
+  match s.selFlags with
+  | some v => { s with flagsSelect := f.mask v }
+  | none => s
+
+/-- `self._set_keep(T, F, B, self._weights_keep, self._flags_keep)`: the flag names go through the getter
+    and back through the setter -/
+def setKeep (f : Fmt) (s : St) : St :=
+  { s with flagsSelect := f.mask (.seq (keepNames f.lsb f.names s.flagsSelect)) }
+
+/-- reset the selection flags on the appropriate dimensions, drop their stored criteria,
+    then `self._selection.update(kwargs)` -/
+def resetAndUpdate (s : St) (c : Call) : St :=
   let ds := c.resetDims
-  -- reset the selection flags on the appropriate dimensions, drop their stored criteria
-  let s1 : St := { s with
+  let sel := dictUpdate (s.selection.filter fun k => !ds.contains k.1.dim) c.crits
+  { s with
     tKeep := resetMask ds .T s.tKeep
     fKeep := resetMask ds .F s.fKeep
     bKeep := resetMask ds .B s.bKeep
-    selection := s.selection.filter fun k => !ds.contains k.1.dim }
-  -- self._selection.update(kwargs)
-  let s2 : St := { s1 with
-    selection := dictUpdate s1.selection c.crits
-    selFlags := match c.flags with | some v => some v | none => s1.selFlags
-    selWeights := match c.weights with | some v => some v | none => s1.selWeights }
-  -- re-apply every stored criterion
-  let s3 := s2.selection.foldl applyCrit s2
-  let s4 : St := match s3.selWeights with
-    | some v => { s3 with weightsKeep := v }
-    | none => s3
-  let s5 : St := match s4.selFlags with
-    | some v => { s4 with flagsSelect := f.mask v }
-    | none => s4
-  -- self._set_keep(T, F, B, self._weights_keep, self._flags_keep): getter then setter
-  { s5 with flagsSelect := f.mask (.seq (keepNames f.lsb f.names s5.flagsSelect)) }
+    selection := sel
+    selFlags := match c.flags with | some v => some v | none => s.selFlags
+    selWeights := match c.weights with | some v => some v | none => s.selWeights }
+
+/-- `DataSet.select(**kwargs)`: reset, update the stored selection, re-apply every stored criterion,
+    hand the result to `_set_keep` -/
+def step (f : Fmt) (s : St) (c : Call) : St :=
+  let s2 := resetAndUpdate s c
+  setKeep f (setFlags f (setWeights (s2.selection.foldl applyCrit s2)))
 
 /-- state after `__init__` (which assigns `_flags_keep = 'all'`, `_weights_keep = 'all'`, all masks True) -/
 def init (f : Fmt) (nT nF nB : Nat) : St :=
